@@ -16,7 +16,7 @@ PROPS = {
         "level_text": "Machine-checked proof over the Lean model of LogWriter/LogReader for every block size, checksum function, record list, session split, truncation point and fragment cut; the model is tied to the code on every run by byte-exact comparison of file contents and reader output, exhaustively around the block-boundary arithmetic, and the round-trip/truncation/partial-append oracle is evaluated on the implementation itself.",
         "design_ref": "5 (C12)",
         "level": "proof",
-        "lean_modules": ["Rain.Props.C12"],
+        "lean_modules": ["Rain.Props.C12", "Rain.Legacy.LogD8"],
         "components": ["c12"],
         "trusted_base": COMMON_TB + [
             "crc crate's CRC-32C (a parameter of the theorems with the only hypothesis crc d < 2^32; concrete Lean CRC-32C used only for byte-exact comparison)",
@@ -47,4 +47,4 @@ PROPS = {
 }
 
 # properties whose check is registered in MANIFEST.json
-CLAIMED = ["C14"]
+CLAIMED = ["C12", "C14"]
